@@ -406,6 +406,35 @@ def _surface(case, ctx):
             import shutil
             shutil.rmtree(tmp, ignore_errors=True)
 
+    if want('find_ctrlpts'):
+        # operations.find_ctrlpts(surf, u, v): the block of control points that act at (u, v), addressed as [k][l] = (span_u - p + k,
+        # span_v - q + l) of the same net
+        rc = dict(case, only='find_ctrlpts')
+        ku, kv_ = [float(k) for k in surf.knotvector_u], [float(k) for k in surf.knotvector_v]
+        for fu in (0.0, 0.5, 0.999):
+            for fv in (0.0, 0.6):
+                u_ = ku[pu] + (ku[su] - ku[pu]) * fu
+                v_ = kv_[pv] + (kv_[sv] - kv_[pv]) * fv
+                iu = R.find_span(pu, [F(k) for k in ku], F(u_)) - pu
+                iv = R.find_span(pv, [F(k) for k in kv_], F(v_)) - pv
+                try:
+                    blk = operations.find_ctrlpts(surf, u_, v_)
+                    got = [[list(p) for p in row] for row in blk]
+                except Exception as e:
+                    ctx.check('C13.find_ctrlpts.block', False, rc, dict(f0, u=u_, v=v_), 'the active block', repr(e))
+                    continue
+                exp = [[[float(c) for c in (grid[iu + k][iv + l][:-1] if rat else grid[iu + k][iv + l])] for l in range(pv + 1)]
+                       for k in range(pu + 1)]
+                if rat:
+                    # (the function may return weighted or unweighted points; both address the same (u, v))
+                    expw = [[[float(c) for c in grid[iu + k][iv + l]] for l in range(pv + 1)] for k in range(pu + 1)]
+                    w_ok = got == expw
+                    exp_u = [[[c / grid[iu + k][iv + l][-1] for c in grid[iu + k][iv + l][:-1]] for l in range(pv + 1)] for k in range(pu + 1)]
+                    ok = w_ok or core._close(got, exp_u, 1e-12, 1.0)[0]
+                else:
+                    ok = got == exp
+                ctx.check('C13.find_ctrlpts.block', ok, rc, dict(f0, u=u_, v=v_), exp, got, 'block[k][l] = net(span_u - p + k, span_v - q + l)')
+
     if want('ctrlpts2d'):
         rc = dict(case, only='ctrlpts2d')
         c2 = surf.ctrlpts2d
